@@ -30,6 +30,158 @@ Fixpoint edits_ok (k : nat) (w : list Z) (lo : nat) (es : list edit) : Prop :=
                  /\ edits_ok k w (epos e + 3 * k + 2) rest
   end.
 
+(* ========================================================================================== *)
+(* Part A: block form of a multi-edit                                                          *)
+(*   w = H ++ B1_1 ++ A_1 ++ B1_2 ++ A_2 ++ ...      s = H ++ B2_1 ++ A_1 ++ B2_2 ++ A_2 ++ ...  *)
+(* ========================================================================================== *)
+Inductive ekind : list Z -> list Z -> Prop :=
+| EK_sub : forall a c, is_acgt c = true -> c <> a -> ekind [a] [c]
+| EK_ins : forall c, is_acgt c = true -> ekind [] [c]
+| EK_del : forall a, ekind [a] [].
+
+Definition blk := (list Z * list Z * list Z)%type.      (* (B1, B2, A): the edit and the unedited stretch after it *)
+
+Fixpoint wtl (r : list blk) : list Z :=
+  match r with [] => [] | (B1, _, A) :: r' => B1 ++ A ++ wtl r' end.
+Fixpoint stl (r : list blk) : list Z :=
+  match r with [] => [] | (_, B2, A) :: r' => B2 ++ A ++ stl r' end.
+Fixpoint bok (k : nat) (r : list blk) : Prop :=
+  match r with
+  | [] => True
+  | (B1, B2, A) :: r' => ekind B1 B2 /\ (2 * k <= length A)%nat /\ (r' <> [] -> (3 * k + 1 <= length A)%nat) /\ bok k r'
+  end.
+
+Lemma ekind_B2 : forall B1 B2, ekind B1 B2 -> acgt B2 /\ (length B2 <= 1)%nat /\ (length B1 <= 1)%nat.
+Proof.
+  intros B1 B2 H. destruct H as [a c Hc _|c Hc|a]; cbn [length]; (split; [|lia]).
+  - constructor; [exact Hc|constructor].
+  - constructor; [exact Hc|constructor].
+  - constructor.
+Qed.
+
+Lemma m_skipn_pre : forall {T} (P Q : list T), skipn (length P) (P ++ Q) = Q.
+Proof. intros. rewrite skipn_app, Nat.sub_diag, skipn_all. reflexivity. Qed.
+
+Lemma m_skipn_pre_add : forall {T} (P Q : list T) j, skipn (length P + j) (P ++ Q) = skipn j Q.
+Proof. intros. rewrite <- r8_skipn_skipn. rewrite m_skipn_pre. reflexivity. Qed.
+
+Lemma m_firstn_app_le : forall {T} (a b : list T) n, (n <= length a)%nat -> firstn n (a ++ b) = firstn n a.
+Proof.
+  intros T a b n H. rewrite firstn_app. replace (n - length a)%nat with 0%nat by lia. cbn [firstn]. apply app_nil_r.
+Qed.
+
+Lemma m_firstn_skipn_app_le : forall {T} (a b : list T) j m, (j + m <= length a)%nat ->
+  firstn m (skipn j (a ++ b)) = firstn m (skipn j a).
+Proof.
+  intros T a b j m H. rewrite skipn_app. apply m_firstn_app_le. rewrite skipn_length. lia.
+Qed.
+
+Lemma m_nth_pre_add : forall (P Q : list Z) j d, nth (length P + j) (P ++ Q) d = nth j Q d.
+Proof. intros. rewrite app_nth2 by lia. f_equal. lia. Qed.
+
+Lemma pre_firstn : forall (w Z0 : list Z) n i, (i <= n)%nat -> (i <= length w)%nat ->
+  firstn i (firstn n w ++ Z0) = firstn i w.
+Proof.
+  intros w Z0 n i H1 H2. rewrite m_firstn_app_le by (rewrite firstn_length; lia).
+  rewrite firstn_firstn. f_equal. lia.
+Qed.
+
+Lemma pre_skipn : forall (w Z0 : list Z) n i, (i <= n)%nat -> (i <= length w)%nat ->
+  skipn i (firstn n w ++ Z0) = skipn i (firstn n w) ++ Z0.
+Proof.
+  intros w Z0 n i H1 H2. rewrite skipn_app. rewrite firstn_length.
+  replace (i - Nat.min n (length w))%nat with 0%nat by lia. reflexivity.
+Qed.
+
+Lemma apply_edits_cons : forall w e es, apply_edits w (e :: es) = apply_edit (apply_edits w es) e.
+Proof. intros. unfold apply_edits. cbn [rev]. rewrite fold_left_app. reflexivity. Qed.
+
+Lemma edits_blocks : forall k es w lo, edits_ok k w lo es ->
+  exists H r, skipn lo w = H ++ wtl r /\ apply_edits w es = firstn lo w ++ H ++ stl r /\
+              length r = length es /\ bok k r /\ (es <> [] -> (lo < length w)%nat).
+Proof.
+  intros k. induction es as [|e es IH]; intros w lo Hok.
+  - exists (skipn lo w), []. cbn [wtl stl length bok apply_edits rev fold_left]. rewrite app_nil_r, firstn_skipn.
+    repeat split. intros Hn. exfalso. apply Hn. reflexivity.
+  - cbn [edits_ok] in Hok. destruct Hok as (Hlo & Hp & Hwf & Hrest).
+    destruct (IH w _ Hrest) as (H' & r' & E1 & E2 & E3 & E4 & E5).
+    set (p := epos e) in *. set (lo' := (p + 3 * k + 2)%nat) in *.
+    assert (F1 : firstn p w = firstn lo w ++ firstn (p - lo) (skipn lo w)).
+    { replace p with (lo + (p - lo))%nat at 1 by lia. apply r8_firstn_add. }
+    assert (F2 : skipn lo w = firstn (p - lo) (skipn lo w) ++ skipn p w).
+    { rewrite <- (firstn_skipn (p - lo) (skipn lo w)) at 1. rewrite r8_skipn_skipn. do 2 f_equal. lia. }
+    assert (F3 : forall i, (i <= lo')%nat -> (i <= length w)%nat ->
+                   skipn i w = skipn i (firstn lo' w) ++ H' ++ wtl r').
+    { intros i Hi1 Hi2. rewrite <- (firstn_skipn lo' w) at 1. rewrite pre_skipn by assumption. rewrite E1. reflexivity. }
+    assert (FA : forall i, (i <= S p)%nat ->
+                   (2 * k <= length (skipn i (firstn lo' w) ++ H'))%nat /\
+                   (r' <> [] -> (3 * k + 1 <= length (skipn i (firstn lo' w) ++ H'))%nat)).
+    { intros i Hi. rewrite app_length, skipn_length, firstn_length. split; [lia|].
+      intros Hr. assert (He : es <> []) by (intros ->; destruct r'; [apply Hr; reflexivity|discriminate]).
+      specialize (E5 He). lia. }
+    rewrite apply_edits_cons, E2. cbn [length]. destruct e as [p0 c|p0 c|p0]; cbn [epos] in p; subst p0.
+    + destruct Hwf as [Hc Hne].
+      exists (firstn (p - lo) (skipn lo w)), (([nth p w 0], [c], skipn (S p) (firstn lo' w) ++ H') :: r').
+      cbn [wtl stl length bok apply_edit]. split; [|split; [|split; [|split]]].
+      * rewrite F2 at 1. f_equal. rewrite (skipn_nth w p) by lia. cbn [app]. f_equal.
+        rewrite (F3 (S p)) by lia. rewrite <- !app_assoc. reflexivity.
+      * unfold edit_sub. rewrite pre_firstn, pre_skipn by lia. rewrite F1. rewrite <- !app_assoc. reflexivity.
+      * lia.
+      * destruct (FA (S p) ltac:(lia)) as [FA1 FA2].
+        split; [constructor; [exact Hc|exact Hne]|]. split; [exact FA1|]. split; [exact FA2|exact E4].
+      * intros _. lia.
+    + exists (firstn (p - lo) (skipn lo w)), (([], [c], skipn p (firstn lo' w) ++ H') :: r').
+      cbn [wtl stl length bok apply_edit]. split; [|split; [|split; [|split]]].
+      * rewrite F2 at 1. f_equal. cbn [app]. rewrite (F3 p) by lia. rewrite <- !app_assoc. reflexivity.
+      * unfold edit_ins. rewrite pre_firstn, pre_skipn by lia. rewrite F1. rewrite <- !app_assoc. reflexivity.
+      * lia.
+      * destruct (FA p ltac:(lia)) as [FA1 FA2].
+        split; [constructor; exact Hwf|]. split; [exact FA1|]. split; [exact FA2|exact E4].
+      * intros _. lia.
+    + exists (firstn (p - lo) (skipn lo w)), (([nth p w 0], [], skipn (S p) (firstn lo' w) ++ H') :: r').
+      cbn [wtl stl length bok apply_edit]. split; [|split; [|split; [|split]]].
+      * rewrite F2 at 1. f_equal. rewrite (skipn_nth w p) by lia. cbn [app]. f_equal.
+        rewrite (F3 (S p)) by lia. rewrite <- !app_assoc. reflexivity.
+      * unfold edit_del. rewrite pre_firstn, pre_skipn by lia. rewrite F1. rewrite <- !app_assoc. reflexivity.
+      * lia.
+      * destruct (FA (S p) ltac:(lia)) as [FA1 FA2].
+        split; [constructor|]. split; [exact FA1|]. split; [exact FA2|exact E4].
+      * intros _. lia.
+Qed.
+
+(* ========================================================================================== *)
+(* Part B: detections, recombination and the candidate count                                   *)
+(* ========================================================================================== *)
+Record det := { d_ch : list Z; d_mk : list Z; d_f : list Z; d_x : list Z }.
+
+Definition joinD (x0 : list Z) (D : list det) : list Z := x0 ++ concat (map (fun t => d_f t ++ d_x t) D).
+
+Lemma recombine_in : forall D x0 fr, Forall2 (fun t fs => In (d_f t) fs) D fr ->
+  In (joinD x0 D) (recombine (x0 :: map d_x D) fr).
+Proof.
+  induction D as [|t D IH]; intros x0 fr HF; inversion HF as [|? fs ? fss Hin HF']; subst.
+  - cbn [map recombine]. left. unfold joinD. cbn [map concat]. symmetry. apply app_nil_r.
+  - cbn [map recombine]. apply in_flat_map. exists (joinD (d_x t) D). split; [apply IH; exact HF'|].
+    apply in_map_iff. exists (d_f t). split; [|exact Hin].
+    unfold joinD. cbn [map concat]. rewrite <- !app_assoc. reflexivity.
+Qed.
+
+Lemma count_bound : forall (fr : list (list (list Z))) B a, 0 < a -> 1 <= B ->
+  Forall (fun fs => 1 <= Z.of_nat (length fs) <= B) fr ->
+  a <= fold_left (fun a f => a * Z.of_nat (length f)) fr a <= a * B ^ Z.of_nat (length fr).
+Proof.
+  induction fr as [|fs fr IH]; intros B a Ha HB HF; cbn [fold_left length].
+  - change (Z.of_nat 0) with 0. rewrite Z.pow_0_r. lia.
+  - inversion HF as [|? ? H1 H2]; subst. rewrite Nat2Z.inj_succ, Z.pow_succ_r by lia.
+    assert (Ha' : 0 < a * Z.of_nat (length fs)) by nia.
+    specialize (IH B _ Ha' HB H2).
+    assert (HP : 0 <= B ^ Z.of_nat (length fr)) by (apply Z.pow_nonneg; lia).
+    split; [nia|].
+    eapply Z.le_trans; [apply IH|].
+    rewrite <- Z.mul_assoc. apply Z.mul_le_mono_nonneg_l; [lia|].
+    apply Z.mul_le_mono_nonneg_r; lia.
+Qed.
+
 (* TARGET STATEMENT (to be proved, do not change the statement):
 
 Theorem repair_multi : forall k acc v0 w es vt heap, generated k acc -> 0 <= v0 < pow4 k -> is_walk acc v0 w ->
